@@ -125,7 +125,11 @@ def split_operands(fam, impl, rng, keys, rec):
                            'tuple', 'generator', 'pyset', 'range',
                            'other-impl', 'Set', 'list'])
         if kind in setops.CONTAINER_KINDS:
-            c, _ = setops.make_container(fam, kind, impl, set(part), vals, rng)
+            lo_, hi_ = INT_RANGES[fam.kc]
+            pool = [rng.randint(lo_, hi_) for _ in range(rng.choice(
+                [0, 5, 40]))] + [min(hi_, k + 1) for k in part[:10]]
+            c, _ = setops.make_container(fam, kind, impl, set(part), vals,
+                                         rng, pool=pool)
             ops.append(c)
         elif kind == 'range':
             a = min(part)
